@@ -562,6 +562,11 @@ func (s *Store[K, V]) DeleteWithSecondary(key K) error {
 		err := s.secondaryCache.Delete(key)
 		if err != nil {
 			shard.mu.Unlock()
+			// the entry is gone from the map already, the policy and the
+			// timer wheel must drop it as well
+			if ok {
+				s.sendWrite(WriteBufItem[K, V]{entry: entry, code: REMOVE})
+			}
 			return err
 		}
 	}
